@@ -514,6 +514,9 @@ where
             // the step after adjusting it down). We return IVPStatus::Redo so IVPIterator
             // calls again, yielding the runge-kutta steps.
             if self.yield_memory == O {
+                self.prev_derivatives
+                    .push_back(self.implicit_derivs.clone());
+                self.prev_derivatives.pop_front();
                 self.yield_memory -= 1;
                 return Err(IVPStatus::Redo);
             }
